@@ -132,7 +132,14 @@ pub fn run_batch(cases: &[&Built], props: &[&'static str], seed: u64, runtimes: 
                 Runtime::Miri => probe::run_miri(&scratch.path, last, &scratch.path.join("miri-target")),
             };
             if let Some(r) = &log.inconclusive {
-                res.inconclusive.push(format!("{}: {r}", rt.name()));
+                if *rt == Runtime::Native {
+                    res.inconclusive.push(format!("{}: {r}", rt.name()));
+                } else {
+                    // a secondary instrument that could not run (tool start-up failure under load,
+                    // watchdog) adds no observations; it is recorded, not turned into a verdict
+                    *res.stats.entry(format!("{}/runs_without_result", rt.name())).or_insert(0) += 1;
+                    eprintln!("{} run without result: {}", rt.name(), crate::verdict::one_line(r, 200));
+                }
             }
             *res.stats.entry(format!("{}/runs", rt.name())).or_insert(0) += 1;
             *res.stats.entry(format!("{}/restarts_after_crash", rt.name())).or_insert(0) += log.restarts as u64;
